@@ -1,5 +1,6 @@
 // Engine B — executor + lock-step reference model.  One case = one forked child (see gen.cpp).
 #include <climits>
+#include <signal.h>
 #include <algorithm>
 #include "exec.hpp"
 
@@ -19,7 +20,17 @@ void Exec::payload_free_hook(void *p) {
     Payload &pl = E->payloads[it->second];
     pl.frees++;
     E->trace("payload " + std::to_string(pl.id) + " released (holders " + std::to_string(pl.holders) + ")");
-    if (pl.holders > 0) E->fail("C02.5", "auto-free payload " + std::to_string(pl.id) + " was released while " + std::to_string(pl.holders) + " recipient(s) still have it pending, in delivery or retained");
+    // judged at the next point where the model has caught up with what the library did inside the current call
+    if (pl.holders > 0) E->pending_free_checks.push_back(pl.id);
+}
+
+void Exec::check_pending_frees() {
+    if (ctx_teardown || !ok()) return;
+    for (long id : pending_free_checks) {
+        Payload &pl = payloads[id];
+        if (pl.holders > 0) { fail("C02.5", "auto-free payload " + std::to_string(pl.id) + " was released while " + std::to_string(pl.holders) + " recipient(s) still have it pending, in delivery or retained"); break; }
+    }
+    pending_free_checks.clear();
 }
 
 bool Exec::timers_active() { return false; }
@@ -139,7 +150,7 @@ void Exec::do_op3(const Op &op, bool top, Inst *S, Inst *T, bool deny) {
             if (!legal) { RET_ILLEGAL("C01.2", "m_mod_src_deregister_fd", r); break; }
             if (present) {
                 RET_LEGAL("C09.2", "m_mod_src_deregister_fd of a registered descriptor", r);
-                if (S->fds[idx].autoclose) harness_fd_open[idx] = false; // the library owns and closes it now
+                release_fd_src(S->fds[idx]); // the library owns and closes it now
                 S->fds.erase(idx); nt["C09"] = true;
             } else RET_ILLEGAL("C09.3", "m_mod_src_deregister_fd of a descriptor that is not registered", r);
         }
@@ -240,6 +251,7 @@ void Exec::epilogue() {
 
 rt::Verdict Exec::run() {
     g_exec = this;
+    signal(SIGPIPE, SIG_IGN); // the harness may write to a pipe whose read end an auto-close source already closed
     track::install();
     track::st().error.clear();
     for (int i = 0; i < 8; i++) { harness_fd[i][0] = harness_fd[i][1] = -1; harness_fd_open[i] = false; fd_bytes[i] = 0; }
